@@ -12,8 +12,9 @@ the mutually recursive walkers (`walk_here_statement`, `walk_command_complex`,
 `Pkgcore.C34.fuel_suffices` proves it never does with the `fuelFor` that `mainRun` uses).
 
 `str.isspace` / `str.isalnum` come from tables generated out of CPython (`Generated/C34Tables.lean`).
-The name predicates (`re.match` of the patterns built by `build_regex_string`) are parameters
-`Option (List Char → Bool)`; `out.write(buff[a:b])` is recorded as the window `(a, b)`; the callbacks
+The scanner takes the name predicates as parameters `Option (List Char → Bool)`; `mainRunNames` (= `main_run`) obtains
+them from the token lists through `buildRegexString` (the string `build_regex_string` builds), a parser and a matcher for the
+subset of `re` syntax in use (last section).  `out.write(buff[a:b])` is recorded as the window `(a, b)`; the callbacks
 are recorded as the list of recognised statements.
 -/
 namespace Pkgcore.C34
@@ -122,17 +123,23 @@ def walkPound (b : Buf) (pos : Nat) (endchar : Option Char) : Except Err Nat :=
     | none => .error .index
     | some c => if !isSpace c then .ok (pos + 1) else .ok rest
 
-/-- the line-start test of the here-document search: skipping blanks backwards from `i`, is there a newline? -/
-def lineStartBefore (b : Buf) : Nat → Bool
+/-- the line-start test of the here-document search: is there a newline directly before `i` — for `<<-` (`tabs`) after
+skipping tabs backwards? -/
+def lineStartBefore (b : Buf) (tabs : Bool) : Nat → Bool
   | 0 => false
   | i + 1 =>
     match b[i]? with
-    | some c => if c = '\t' ∨ c = ' ' then lineStartBefore b i else c = '\n'
+    | some c => if tabs ∧ c = '\t' then lineStartBefore b tabs i else c = '\n'
     | none => false
 
-/-- the `while end_here != -1` search of `walk_here_statement` (after the fixes: the search always advances; an empty word
-ends at an empty line) -/
-def hereSearch (w : List Char) (b : Buf) (from_ : Nat) : Nat → Except Err (Option Nat)
+/-- is the occurrence of the here word at `e`, followed by the character `c`, the terminating line?  The line must be exactly
+the word (after leading tabs for `<<-`); inside `$( )` (`endchar = ')'`) the word may be followed by the closing parenthesis;
+an empty word ends at an empty line only -/
+def hereEnds (w : List Char) (b : Buf) (tabs : Bool) (endchar : Char) (e : Nat) (c : Char) : Bool :=
+  decide (c = '\n' ∨ (w.length ≠ 0 ∧ c = ')' ∧ endchar = ')')) && lineStartBefore b tabs e
+
+/-- the `while end_here != -1` search of `walk_here_statement` (after the fixes: the search always advances) -/
+def hereSearch (w : List Char) (b : Buf) (tabs : Bool) (endchar : Char) (from_ : Nat) : Nat → Except Err (Option Nat)
   | 0 => .error .fuel
   | fuel + 1 =>
     match findSub w b from_ with
@@ -141,8 +148,8 @@ def hereSearch (w : List Char) (b : Buf) (from_ : Nat) : Nat → Except Err (Opt
       match b[e + w.length]? with
       | none => .error .index
       | some c =>
-        if (if w.length ≠ 0 then oneOf ";\n\r})" c else oneOf "\n\r" c) ∧ lineStartBefore b e then .ok (some e)
-        else hereSearch w b (e + max w.length 1) fuel
+        if hereEnds w b tabs endchar e c then .ok (some e)
+        else hereSearch w b tabs endchar (e + max w.length 1) fuel
 
 /-- a recognised statement, as reported to the callbacks -/
 structure Stmt where
@@ -188,8 +195,8 @@ def applyMatch (m : Option (List Char → Bool)) (name : List Char) : Bool :=
   | none => false
 
 mutual
-/-- `walk_here_statement(buff, pos)` -/
-def walkHere (fuel : Nat) (b : Buf) (pos : Nat) : Except Err Nat :=
+/-- `walk_here_statement(buff, pos, endchar)` -/
+def walkHere (fuel : Nat) (b : Buf) (pos : Nat) (endchar : Char) : Except Err Nat :=
   match fuel with
   | 0 => .error .fuel
   | fuel + 1 =>
@@ -198,6 +205,7 @@ def walkHere (fuel : Nat) (b : Buf) (pos : Nat) : Except Err Nat :=
     | none => .error .index
     | some c =>
       if c = '<' then .ok (pos + 1) else
+      let tabs : Bool := c = '-'                       -- `<<-`: the terminating line may be indented with tabs
       let pos := skipWhileLt (fun c => isSpace c || c = '-') b pos
       match b[pos]? with
       | none => .error .index
@@ -210,7 +218,7 @@ def walkHere (fuel : Nat) (b : Buf) (pos : Nat) : Except Err Nat :=
         let word := slice b wstart endHere
         let endHere := endHere + 1
         if endHere ≥ b.length then pure endHere else
-        match ← hereSearch word b endHere (b.length + 1) with
+        match ← hereSearch word b tabs endchar endHere (b.length + 1) with
         | none => pure b.length
         | some e => pure (e + word.length)
 
@@ -232,7 +240,7 @@ def walkComplexLoop (fuel : Nat) (b : Buf) (start pos : Nat) (endchar : Char) (l
       else if ch = '\\' then walkComplexLoop fuel b start (pos + 2) endchar lvl
       else if ch = '<' then
         if pos + 1 < b.length ∧ b[pos + 1]? = some '<' ∧ lvl = .command then do
-          let p ← walkHere fuel b (pos + 1)
+          let p ← walkHere fuel b (pos + 1) endchar
           walkComplexLoop fuel b start p endchar lvl
         else walkComplexLoop fuel b start (pos + 1) endchar lvl
       else if ch = '#' then
@@ -430,5 +438,175 @@ def mainRun (data : List Char) (vm fm : Option (List Char → Bool)) : Except Er
   match processScope (fuelFor b) true b 0 vm fm '\x00' with
   | .ok r => .ok ((r.windows.map fun w => slice b w.1 w.2).flatten, r)
   | .error e => .error e
+
+/-! ## name selection: `build_regex_string` and `re.match` on the regular-expression subset it is used with
+
+`build_regex_string` is ported as the string manipulation it is; the string is then read by a parser of the
+subset of Python's `re` syntax the callers use (literal characters, `\c` for a non-alphanumeric `c`, `.`,
+the postfix operators `*`, `+`, `?` on a single character, `^`, `$`, `|`, `(?:…)`, `(?!…)`) and matched by a
+backtracking matcher (`re.match`: anchored at position 0, no flags).  Anything outside the subset is
+*unsupported* (`none`), never guessed. -/
+
+/-- the characters one atom accepts -/
+inductive Cs | lit (c : Char) | any
+  deriving DecidableEq, Repr
+
+/-- `.` does not match a newline (no `DOTALL`) -/
+def Cs.accepts : Cs → Char → Bool
+  | .lit c, d => c == d
+  | .any, d => d != '\n'
+
+inductive Re
+  | eps | fail
+  | ch (s : Cs)
+  | star (s : Cs)
+  | bol | eol
+  | seq (a b : Re) | alt (a b : Re) | neg (a : Re)
+  deriving Repr
+
+/-- `cs*` followed by the continuation `k` (position, rest of the subject) -/
+def starM (cs : Cs) (k : Nat → List Char → Bool) : Nat → List Char → Bool
+  | i, [] => k i []
+  | i, c :: s => k i (c :: s) || (cs.accepts c && starM cs k (i + 1) s)
+
+/-- backtracking match of `r` at position `i` (rest of the subject `s`), then `k` -/
+def Re.m : Re → Nat → List Char → (Nat → List Char → Bool) → Bool
+  | .eps, i, s, k => k i s
+  | .fail, _, _, _ => false
+  | .ch cs, i, s, k => match s with
+    | c :: s' => cs.accepts c && k (i + 1) s'
+    | [] => false
+  | .star cs, i, s, k => starM cs k i s
+  | .bol, i, s, k => i == 0 && k i s
+  | .eol, i, s, k => (s.isEmpty || s == ['\n']) && k i s       -- `$`: at the end or before a final newline
+  | .seq a b, i, s, k => a.m i s (fun i' s' => b.m i' s' k)
+  | .alt a b, i, s, k => a.m i s k || b.m i s k
+  | .neg a, i, s, k => !(a.m i s (fun _ _ => true)) && k i s
+
+/-- `pattern.match(name) is not None` -/
+def Re.matches (r : Re) (name : List Char) : Bool := r.m 0 name (fun _ _ => true)
+
+def seqOf : List Re → Re
+  | [] => .eps
+  | r :: rs => .seq r (seqOf rs)
+
+def altOf : List Re → Re
+  | [] => .fail
+  | [r] => r
+  | r :: rs => .alt r (altOf rs)
+
+/-- one open group of the parser: the finished branches and the items of the branch being read -/
+structure Frame where
+  neg : Bool
+  alts : List Re
+  cur : List Re
+  deriving Repr
+
+def Frame.re (f : Frame) : Re := altOf (f.alts ++ [seqOf f.cur])
+def Frame.push (f : Frame) (r : Re) : Frame := { f with cur := f.cur ++ [r] }
+
+inductive Mode | normal | esc | open1 | open2
+  deriving DecidableEq, Repr
+
+structure PState where
+  mode : Mode
+  top : Frame
+  stack : List Frame
+  deriving Repr
+
+/-- the characters with a meaning of their own in a regular expression -/
+def specials : List Char := ['.', '^', '$', '*', '+', '?', '{', '}', '[', ']', '\\', '|', '(', ')']
+def isSpecial (c : Char) : Bool := specials.contains c
+
+/-- a postfix operator applies to a preceding single-character atom only (everything else is unsupported) -/
+def applyPostfix (f : Frame) (mk : Cs → List Re) : Option Frame :=
+  match f.cur.getLast? with
+  | some (.ch cs) => some { f with cur := f.cur.dropLast ++ mk cs }
+  | _ => none
+
+/-- read one character of the regular expression -/
+def step (st : PState) (c : Char) : Option PState :=
+  match st.mode with
+  | .esc => if isAlnum c then none else some { st with mode := .normal, top := st.top.push (.ch (.lit c)) }
+  | .open1 => if c = '?' then some { st with mode := .open2 } else none
+  | .open2 =>
+    if c = ':' then some ⟨.normal, ⟨false, [], []⟩, st.top :: st.stack⟩
+    else if c = '!' then some ⟨.normal, ⟨true, [], []⟩, st.top :: st.stack⟩
+    else none
+  | .normal =>
+    if c = '\\' then some { st with mode := .esc }
+    else if c = '(' then some { st with mode := .open1 }
+    else if c = ')' then
+      match st.stack with
+      | [] => none
+      | outer :: rest =>
+        let r := st.top.re
+        some ⟨.normal, outer.push (if st.top.neg then .neg r else r), rest⟩
+    else if c = '|' then some { st with top := { st.top with alts := st.top.alts ++ [seqOf st.top.cur], cur := [] } }
+    else if c = '^' then some { st with top := st.top.push .bol }
+    else if c = '$' then some { st with top := st.top.push .eol }
+    else if c = '.' then some { st with top := st.top.push (.ch .any) }
+    else if c = '*' then (applyPostfix st.top fun cs => [.star cs]).map fun f => { st with top := f }
+    else if c = '+' then (applyPostfix st.top fun cs => [.ch cs, .star cs]).map fun f => { st with top := f }
+    else if c = '?' then (applyPostfix st.top fun cs => [.alt (.ch cs) .eps]).map fun f => { st with top := f }
+    else if c = '[' ∨ c = ']' ∨ c = '{' ∨ c = '}' then none
+    else some { st with top := st.top.push (.ch (.lit c)) }
+
+def parseFrom (st : PState) : List Char → Option PState
+  | [] => some st
+  | c :: cs => match step st c with
+    | some st' => parseFrom st' cs
+    | none => none
+
+/-- `re.compile(s)` on the supported subset -/
+def parseRe (s : List Char) : Option Re :=
+  match parseFrom ⟨.normal, ⟨false, [], []⟩, []⟩ s with
+  | some ⟨.normal, top, []⟩ => some top.re
+  | _ => none
+
+/-- `'|'.join(tokens)` -/
+def joinBar : List (List Char) → List Char
+  | [] => []
+  | [t] => t
+  | t :: ts => t ++ '|' :: joinBar ts
+
+/-- `build_regex_string(tokens, invert)`: the pattern text, `none` for Python's `None` -/
+def buildRegexString (tokens : List (List Char)) (invert : Bool) : Option (List Char) :=
+  let tokens := tokens.filter (· ≠ [])
+  if tokens = [] then none else
+  let s := '^' :: (['(', '?', ':'] ++ joinBar tokens ++ [')']) ++ ['$']
+  some (if invert then ['(', '?', '!'] ++ s ++ [')'] else s)
+
+inductive SelErr
+  | noneMatch        -- `build_regex_string` returned `None`: `None.match` raises AttributeError
+  | unsupported      -- the pattern is outside the modelled subset of `re`
+  deriving DecidableEq, Repr
+
+/-- `build_regex_string(tokens, invert=wl).match` as `main_run` obtains it (`if tokens:` first) -/
+def mkMatcher (tokens : List (List Char)) (invert : Bool) : Except SelErr (Option (List Char → Bool)) :=
+  if tokens = [] then .ok none else
+  match buildRegexString tokens invert with
+  | none => .error .noneMatch
+  | some s =>
+    match parseRe s with
+    | none => .error .unsupported
+    | some r => .ok (some r.matches)
+
+inductive RunErr
+  | sel (e : SelErr) | scan (e : Err)
+  deriving DecidableEq, Repr
+
+/-- `main_run(out, data, vars_to_filter, funcs_to_filter, vars_is_whitelist, funcs_is_whitelist)` -/
+def mainRunNames (data : List Char) (vtoks ftoks : List (List Char)) (vwl fwl : Bool) :
+    Except RunErr (List Char × ScopeResult) :=
+  match mkMatcher vtoks vwl with
+  | .error e => .error (.sel e)
+  | .ok vm =>
+    match mkMatcher ftoks fwl with
+    | .error e => .error (.sel e)
+    | .ok fm =>
+      match mainRun data vm fm with
+      | .ok r => .ok r
+      | .error e => .error (.scan e)
 
 end Pkgcore.C34
